@@ -15,6 +15,7 @@ KIND_ERRORS = {
     'norm_wrong_axis': 'norm taken over an axis that is not xyz',
     'double_cart': 'get_cartesian_coords applied to a value that is already Cartesian',
     'kind_mix': 'values of different coordinate kinds are stacked into one array',
+    'sq_mix': 'per-component squares are combined with squared lengths (a sum over the xyz axis is missing)',
     'cartsq_mean_xyz': 'squared components are averaged (not summed) over xyz',
 }
 
